@@ -28,6 +28,8 @@ SPEC = {
 }
 SPEC['explanation'] += ' T9.norm also covers every return path that does not hand back the absolute reference itself: its result is normalised.'
 SPEC['decided'] += ['all non-absolute results normalised']
+SPEC['explanation'] += ' T20.nocache: the functions that build a fresh list / dict / generator per call are not memoised.'
+SPEC['decided'] += ['results are fresh per call (no memoising decorator)']
 MANIFEST = {
     'technique': 'effect (write-set) analysis, must-pass-through on CFG paths, control-dependence of loads, guard predicate folded over a finite abstract domain of list shapes',
     'text': ('Decides necessary structural clauses of C07: navigate is a pure function of the base, always normalises, removes dot '
@@ -40,6 +42,8 @@ MUTATORS = {'update', 'add', 'addlist', 'clear', 'pop', 'popall', 'poplast', 'po
 
 
 def run(ctx):
+    from rules.common import check_not_memoised as _cnm
+    _cnm(ctx, [ctx.program.func(n) for n in ['urlutils.resolve_path_parts']])
     from rules.common import require_fields
     require_fields(ctx.program, 'urlutils.URL', ['path_parts', 'query_params', 'fragment', 'scheme', 'host'])
     prog = ctx.program
